@@ -499,10 +499,10 @@ def model_expr(plan, obs, canon_names):
 
 def canon_preamble():
     names, lines = {}, []
-    for nm in G.CMAPS + ["inferno"]:
+    for k, nm in enumerate(G.CMAPS + ["inferno"]):
         for rev in (False, True):
             _, canon, _ = cmap_of(nm, rev)
-            ident = f"canon_{nm or 'default'}{'_r' if rev else ''}"
+            ident = f"canon_{k}_{(nm or 'default')}{'_reversed' if rev else ''}"
             names[(nm, rev)] = ident
             lines.append(f"Definition {ident} : list Z := {core.zlist(canon)}.")
     return names, "\n".join(lines) + "\n"
